@@ -11,4 +11,10 @@ func factsC10() {
 	emitStr("f_c10_skel_dispatch", skeleton("bus/net/endpoint.go", "endPoint", "dispatch"))
 	emitStr("f_c10_skel_connStream", structFields("bus/net/stream.go", "connStream"))
 	emitStr("f_c10_skel_pipeStream_Write", skeleton("bus/net/stream.go", "pipeStream", "Write"))
+	// the handler flavours built on MakeHandler (send-then-end scenarios: an AddHandler is a MakeHandler with a
+	// queue of 10 whose goroutine ranges over the queue until it is closed; ReceiveAny is a one-shot catch-all
+	// with a queue of 1; Handler.closeWith calls the closer, then closes the queue)
+	emitStr("f_c10_skel_AddHandler", skeleton("bus/net/endpoint.go", "endPoint", "AddHandler"))
+	emitStr("f_c10_skel_ReceiveAny", skeleton("bus/net/endpoint.go", "endPoint", "ReceiveAny"))
+	emitStr("f_c10_skel_Handler_closeWith", skeleton("bus/net/endpoint.go", "Handler", "closeWith"))
 }
